@@ -24,6 +24,7 @@
 #include <parmcb/forestindex.hpp>
 #include <parmcb/spvecgf2.hpp>
 #include <parmcb/util.hpp>
+#include <parmcb/detail/verif.hpp>
 
 namespace parmcb {
 
@@ -85,6 +86,7 @@ namespace parmcb {
             convert_edges(support[k], std::inserter(signed_edges, signed_edges.end()), forest_index);
 
             if (signed_edges.size() >= boost::num_vertices(g)) {
+                PARMCB_VERIF_PROBE(signed_all_vertices);
                 VertexIt vi, viend;
                 for (boost::tie(vi, viend) = boost::vertices(g); vi != viend; ++vi) {
                     auto v = *vi;
@@ -100,6 +102,7 @@ namespace parmcb {
                 /*
                  * Heuristic in case number of signed edges is small compared to the number of vertices.
                  */
+                PARMCB_VERIF_PROBE(signed_hidden_edges);
                 std::set<Edge> hidden_edges;
                 std::copy(signed_edges.begin(), signed_edges.end(), std::inserter(hidden_edges, hidden_edges.begin()));
                 for (auto sei = signed_edges.begin(); sei != signed_edges.end(); ++sei) {
